@@ -52,8 +52,9 @@ THEOREMS = ["TsrunVerif.Ops." + t for t in [
         "toPrim_exclusive", "string_hint_toString_first", "number_hint_valueOf_first", "first_primitive_suffices", "calls_at_most_once", "no_primitive_typeError",
         "both_left_first", "strict_never_converts", "nullish_eq_no_convert", "prim_passthrough"]] + \
     ["TsrunVerif.Compile." + t for t in [
-        "codeE_ok", "codeS_ok", "codeL_ok", "compileE_eq", "compileS_eq", "compileProgram_eq", "compileE_correct", "compileE_restores",
-        "program_completes", "program_throws", "run_mono", "run_unique"]]
+        "codeE_ok", "codeE_okH", "codeS_ok", "codeL_ok", "compileE_eq", "compileS_eq", "compileInner_eq", "compileL_eq", "compileProgram_eq", "compileE_correct", "compileE_restores",
+        "program_completes", "program_throws", "empty_catch_total", "run_mono", "run_unique",
+        "codeE_isSome_iff", "codeS_isSome_iff", "program_refused_iff", "rightNested_limit", "leftNested_limit"]]
 ASSUMPTIONS = [
     "M-Compile mirrors compile_expression / compile_statement_impl / BytecodeBuilder (register allocator, jump placeholders, patch_jump) for literals, variables, unary and binary operators, && || ??, ?:, the comma operator, "
     "every form of assignment to a variable, ++/--, expression statements, if, while, do-while and blocks without declarations; its VM executes the 19 instructions these compile to, with PushScope/PopScope as no-ops (no declaration "
@@ -692,6 +693,12 @@ def part_compile_model(ctx, ref):
         elif g != e:
             ctx.prop_fail("statements: tsrun leaves different variables behind (or throws differently) than M-Compile and the reference engine",
                           {"expr": js[:3000], "tsrun": g, "ref": e, "model_case": m})
+    # the register discipline of the real compiler on whole programs (feature programs and batches of the operator / library corpus)
+    progs = [q if isinstance(q, str) else q[0] for q in corpus.feature_programs(ctx.rng, ctx.tier)]
+    ex = corpus.operator_exprs(ctx.rng, "quick")[:2000] + corpus.library_exprs(ctx.rng, "quick")[:4000]
+    progs += [batch_program(ex[i:i + 50]) for i in range(0, len(ex), 50)]
+    nprog, nbad = c01_compile.discipline(ctx, common, progs, "C01 corpus")
+    ctx.notes.append("register discipline: %d whole programs compiled by the real compiler with the allocator's hook, %d with a register freed twice / handed out while held" % (nprog, nbad))
     ctx.notes.append("compile model: %d statements with identical listings (%d refused by both for want of registers, %d beyond the parser's nesting limit), %d statements run: %s"
                      % (len(ls) - deep, refused, deep, len(ms), json.dumps(kinds, sort_keys=True)))
 
